@@ -5,7 +5,7 @@ import itertools
 import numpy as np
 
 from .. import attach, gen, poollog
-from ..runner import quiet
+from ..runner import quiet, guarded
 
 PROP = 'C14'
 SHORT = {'amp_fraction': 'amp_fraction_threshold', 'amp_consistency': 'amp_consistency_threshold',
@@ -392,7 +392,7 @@ def run(sh):
                 tot += 1
     sh.exhaustive['histories_len<=%d_reduced_alphabet_both_methods' % L] = {'histories': tot}
     for it in range(2 if sh.tier == 'quick' else 40):
-        group_case(sh, rng)
+        guarded(sh, group_case, sh, rng)
 
 
 def replay(sh, driver, case):
